@@ -1,4 +1,4 @@
-use std::{future::Future, pin::Pin, sync::Arc};
+use std::{collections::HashMap, future::Future, pin::Pin, sync::Arc};
 
 use futures_util::FutureExt;
 use indexmap::IndexMap;
@@ -182,14 +182,15 @@ async fn resolve_container_inner<'a, T: ContainerType + ?Sized>(
     root: &'a T,
     parallel: bool,
 ) -> ServerResult<Value> {
-    let mut fields = Fields(Vec::new());
+    let mut fields = Fields::default();
     fields.add_set(ctx, root)?;
+    let futures = fields.into_futures();
 
     let res = if parallel {
-        futures_util::future::try_join_all(fields.0).await?
+        futures_util::future::try_join_all(futures).await?
     } else {
-        let mut results = Vec::with_capacity(fields.0.len());
-        for field in fields.0 {
+        let mut results = Vec::with_capacity(futures.len());
+        for field in futures {
             results.push(field.await?);
         }
         results
@@ -200,10 +201,69 @@ async fn resolve_container_inner<'a, T: ContainerType + ?Sized>(
 
 type BoxFieldFuture<'a> = Pin<Box<dyn Future<Output = ServerResult<(Name, Value)>> + 'a + Send>>;
 
+/// The fields of a selection set that share one response key. They are executed
+/// once, with their selection sets merged.
+struct FieldGroup<'a> {
+    fields: Vec<&'a Positioned<Field>>,
+    /// Executes the group; created where the first of its fields was met.
+    execute: Box<dyn FnOnce(Vec<&'a Positioned<Field>>) -> BoxFieldFuture<'a> + Send + 'a>,
+}
+
 /// A set of fields on an container that are being selected.
-pub struct Fields<'a>(Vec<BoxFieldFuture<'a>>);
+#[derive(Default)]
+pub struct Fields<'a> {
+    groups: Vec<FieldGroup<'a>>,
+    /// Response key to index in `groups`.
+    keys: HashMap<&'a str, usize>,
+}
+
+/// One field standing for all the fields with the same response key: the first
+/// of them, with the selections of the others added to its selection set.
+pub(crate) fn merge_fields(fields: &[&Positioned<Field>]) -> Positioned<Field> {
+    let mut merged = fields[0].clone();
+    for field in &fields[1..] {
+        merged
+            .node
+            .selection_set
+            .node
+            .items
+            .extend(field.node.selection_set.node.items.iter().cloned());
+    }
+    merged
+}
 
 impl<'a> Fields<'a> {
+    /// Adds the field to the group of its response key if there is one already.
+    fn add_to_group(&mut self, field: &'a Positioned<Field>) -> bool {
+        match self.keys.get(field.node.response_key().node.as_str()) {
+            Some(idx) => {
+                self.groups[*idx].fields.push(field);
+                true
+            }
+            None => false,
+        }
+    }
+
+    fn add_group(
+        &mut self,
+        field: &'a Positioned<Field>,
+        execute: impl FnOnce(Vec<&'a Positioned<Field>>) -> BoxFieldFuture<'a> + Send + 'a,
+    ) {
+        self.keys
+            .insert(field.node.response_key().node.as_str(), self.groups.len());
+        self.groups.push(FieldGroup {
+            fields: vec![field],
+            execute: Box::new(execute),
+        });
+    }
+
+    fn into_futures(self) -> Vec<BoxFieldFuture<'a>> {
+        self.groups
+            .into_iter()
+            .map(|group| (group.execute)(group.fields))
+            .collect()
+    }
+
     /// Add another set of fields to this set of fields using the given
     /// container.
     pub fn add_set<T: ContainerType + ?Sized>(
@@ -214,44 +274,33 @@ impl<'a> Fields<'a> {
         for selection in &ctx.item.node.items {
             match &selection.node {
                 Selection::Field(field) => {
-                    if field.node.name.node == "__typename" {
-                        // Get the typename
-                        let ctx_field = ctx.with_field(field);
-                        let field_name = ctx_field.item.node.response_key().node.clone();
-                        let typename = root.introspection_type_name().into_owned();
-
-                        self.0.push(Box::pin(async move {
-                            Ok((field_name, Value::String(typename)))
-                        }));
+                    if self.add_to_group(field) {
                         continue;
                     }
 
-                    let resolve_fut = Box::pin({
-                        let ctx = ctx.clone();
-                        async move {
-                            let res =
-                                resolve_field_with_hooks(&ctx, root, field)
-                                    .await
-                                    .map_err(|err| {
-                                        if err.path.is_empty() {
-                                            ctx.with_field(field).set_error_path(err)
-                                        } else {
-                                            err
-                                        }
-                                    });
-                            match res {
-                                // A field error is recorded and turns the nearest nullable
-                                // position into null: the field itself if its type is nullable.
-                                Err(err) if field_is_nullable::<T>(&ctx, field) => {
-                                    ctx.add_error(err);
-                                    Ok((field.node.response_key().node.clone(), Value::Null))
-                                }
-                                res => res,
-                            }
-                        }
-                    });
+                    if field.node.name.node == "__typename" {
+                        // Get the typename
+                        let field_name = field.node.response_key().node.clone();
+                        let typename = root.introspection_type_name().into_owned();
 
-                    self.0.push(resolve_fut);
+                        self.add_group(field, move |_| {
+                            Box::pin(async move { Ok((field_name, Value::String(typename))) })
+                        });
+                        continue;
+                    }
+
+                    let ctx = ctx.clone();
+                    self.add_group(field, move |fields| {
+                        Box::pin(async move {
+                            match fields[..] {
+                                [field] => resolve_field_or_null(&ctx, root, field).await,
+                                _ => {
+                                    let field = merge_fields(&fields);
+                                    resolve_field_or_null(&ctx, root, &field).await
+                                }
+                            }
+                        })
+                    });
                 }
                 selection => {
                     let (type_condition, selection_set) = match selection {
@@ -310,6 +359,33 @@ impl<'a> Fields<'a> {
             }
         }
         Ok(())
+    }
+}
+
+/// Resolves a field; an error of a field whose type is nullable is recorded and
+/// the field becomes null.
+async fn resolve_field_or_null<'a, T: ContainerType + ?Sized>(
+    ctx: &ContextSelectionSet<'a>,
+    root: &'a T,
+    field: &'a Positioned<Field>,
+) -> ServerResult<(Name, Value)> {
+    let res = resolve_field_with_hooks(ctx, root, field)
+        .await
+        .map_err(|err| {
+            if err.path.is_empty() {
+                ctx.with_field(field).set_error_path(err)
+            } else {
+                err
+            }
+        });
+    match res {
+        // A field error is recorded and turns the nearest nullable
+        // position into null: the field itself if its type is nullable.
+        Err(err) if field_is_nullable::<T>(ctx, field) => {
+            ctx.add_error(err);
+            Ok((field.node.response_key().node.clone(), Value::Null))
+        }
+        res => res,
     }
 }
 
